@@ -45,6 +45,10 @@ Theorem C12_limits : forall track_id ign_c ff of k c v, view_course track_id ign
   cv_max v = match get "max_size" c with Some x => match as_u64 x with Some z => z | None => 25%Z end | None => 25%Z end /\
   cv_min v = match get "min_size" c with Some x => match as_u64 x with Some z => z | None => 0%Z end | None => 0%Z end.
 Proof. exact view_course_limits. Qed.
+(* the configured room factor / offset fields are taken from the export's `fields` object of the course (numbers only) *)
+Theorem C12_room_fields : forall track_id ign_c ff of k c v, view_course track_id ign_c ff of (k, c) = ROk v -> in_problem ign_c v = true ->
+  exists fl, get "fields" c = Some fl /\ cv_fields v = (num_field fl ff, num_field fl of).
+Proof. exact view_course_fields. Qed.
 (* files of the wrong kind or schema version are refused (transcription) *)
 Theorem C12_refuse_kind : forall data tr ic ia k, get "kind" data = Some (JStr k) -> String.eqb k "partial" = false ->
   exists code, read_full data tr ic ia = RErr code.
@@ -100,7 +104,7 @@ Theorem C12_consistent : forall data track ign_c ign_a ff of ps cs amb,
 Proof. intros data track ign_c ign_a ff of ps cs amb H. rewrite read_fields_refines_spec in H. apply (spec_read_consistent _ _ _ _ _ _ _ _ _ H). Qed.
 
 Check C12_consistent. Check C12_refinement. Check C12_participants. Check C12_participants_order. Check C12_kept. Check C12_penalty_position. Check C12_courses. Check C12_instructors.
-Check C12_limits. Check C12_refuse_kind. Check C12_refuse_version.
+Check C12_room_fields. Check C12_limits. Check C12_refuse_kind. Check C12_refuse_version.
 Check C12_track_selected. Check C12_refuse_unknown_track. Check C12_refuse_no_or_several_tracks. Check C12_single_track_selected.
 Print Assumptions C12_refinement.
 Print Assumptions C12_consistent.
@@ -116,3 +120,4 @@ Print Assumptions C12_track_selected.
 Print Assumptions C12_refuse_unknown_track.
 Print Assumptions C12_refuse_no_or_several_tracks.
 Print Assumptions C12_single_track_selected.
+Print Assumptions C12_room_fields.
